@@ -272,7 +272,7 @@ def new_stats():
 
 
 def check(run):
-    n = 1000 if run.tier == "quick" else 12000
+    n = 900 if run.tier == "quick" else 12000
     run.proof_obligations()
     binary = C.go_build("c11")
     out = os.path.join(C.WORK, "cases", "c11_%s.jsonl" % run.tier)
